@@ -10,6 +10,7 @@ CONSTANTS
   MaxItems = 2
   Addrs = {"none", "4096"}
   Grows = {}
+  Lates = TRUE
   NopKinds = {"1"}
   VariantSet = "items"
   Rotate = 2
